@@ -15,15 +15,15 @@ for p in "$@"; do
   mkdir -p $d/repo && cp -r /repo/LDAR_Sim $d/repo/
   (cd / && git apply --unsafe-paths --directory $d/repo "$p" 2>/dev/null) || (cd $d/repo && patch -s -p1 < "$p")
   msg=""
-  for t in emission crew; do
+  for t in emission crew planner followup; do
     LDAR_REPO=$d/repo /venv/bin/python -m harness.extract.${t}_src > $d/$t.json 2>$d/$t.err
     unt=$(/venv/bin/python -c "import json,sys; d=json.load(open('$d/$t.json')); print(','.join(d['untranslated']) or '-')" 2>/dev/null || echo "translator-failed")
-    T=$( [ $t = emission ] && echo EmissionTie || echo CrewTie )
+    case $t in emission) T=EmissionTie;; crew) T=CrewTie;; planner) T=PlannerTie;; followup) T=FollowUpTie;; esac
     fails=$(cd lean && lake build LdarModel.Props.$T 2>&1 | grep -E '^error: LdarModel' | sed "s/.*$T.lean:\([0-9]*\):.*/\1/" | sort -un | tr '\n' ' ')
     msg="$msg | $t: untranslated=$unt failing=[$(names_of lean/LdarModel/Props/$T.lean $fails)]"
   done
   echo "$(echo $p | sed 's|.*/\(seeded\|seed3\)/||'): $msg"
   rm -rf $d
 done
-/venv/bin/python -m harness.extract.emission_src >/dev/null 2>&1; /venv/bin/python -m harness.extract.crew_src >/dev/null 2>&1
-(cd lean && lake build LdarModel.Props.EmissionTie LdarModel.Props.CrewTie >/dev/null 2>&1) && echo "restored: ties build on /repo"
+for t in emission crew planner followup; do /venv/bin/python -m harness.extract.${t}_src >/dev/null 2>&1; done
+(cd lean && lake build LdarModel.Props.EmissionTie LdarModel.Props.CrewTie LdarModel.Props.PlannerTie LdarModel.Props.FollowUpTie >/dev/null 2>&1) && echo "restored: ties build on /repo"
